@@ -199,3 +199,18 @@ func genBound(t *rapid.T, label string) *string {
 }
 
 func hx(b []byte) string { return hex.EncodeToString(b) }
+
+// withSpare returns b in a buffer that has `spare` poisoned bytes of capacity behind it - what a key
+// built with append(), sliced out of a larger buffer or converted from a string looks like. Code
+// that appends to a caller's slice without copying writes into that memory.
+func withSpare(b []byte, spare int) []byte {
+	if b == nil || spare <= 0 {
+		return b
+	}
+	buf := make([]byte, len(b)+spare)
+	for i := range buf {
+		buf[i] = 0xEE
+	}
+	copy(buf, b)
+	return buf[:len(b)]
+}
